@@ -434,6 +434,8 @@ def run_history(ctx, case):
             twin_ob = None      # singleton kinds refuse a second one
     refilter_at = rng.randint(1, max(1, r.num_ops - 2)) if case.get("refilter") and not case.get("history") else None
     skip_once = False
+    fork_at = (rng.randint(1, max(1, r.num_ops - 1)) if case["seed"] % 8 == 6 and not case.get("history")
+               and not case.get("huge") and not case.get("refilter") else None)
     now, avail = state()
     ok = compare(ctx, run, observers, now, avail, step_info)
     nontrivial = False
@@ -455,6 +457,26 @@ def run_history(ctx, case):
             d.unsubscribe(twin_ob)
             observers = [x for x in observers if x is not twin_ob]
             ctx.count("same_class_twin_unsubscribed")
+        if fork_at is not None and len(r.history) == fork_at and twin_ob is None:
+            # the work goes on on a copy of the dispatcher (copy.deepcopy or a pickle round trip)
+            # with the copy's own observers
+            import copy
+            import pickle
+            fork_at = None
+            pos = [next(i for i, x in enumerate(d.subscribers) if x is ob) for ob in observers
+                   if any(x is ob for x in d.subscribers)]
+            if len(pos) == len(observers):
+                try:
+                    d2 = copy.deepcopy(d) if case["seed"] % 2 else pickle.loads(pickle.dumps(d))
+                except Exception:
+                    d2 = None           # (not every user filter can be pickled)
+                if d2 is not None:
+                    d = d2
+                    run.d, run.instance = d, d.instance
+                    run.ops = [op for job in d.instance.jobs for op in job]
+                    observers = [d.subscribers[i] for i in pos]
+                    comp = nested = None
+                    ctx.count("histories_continued_on_a_copy_of_the_dispatcher")
         if refilter_at is not None and len(r.history) == refilter_at:
             refilter_at = None
             new_spec = rng.choice([None, {"names": [rng.choice(gen.FILTER_NAMES)], "form": "function"}])
